@@ -4,8 +4,8 @@ import engines.search as se
 from props._searchprop import SEARCH_TARGETS, SEARCH_TRUST, run_search_prop, replay_search
 
 PROP = 'C04'
-LEAN_TARGETS = SEARCH_TARGETS
-THEOREMS = ['MM.Search.' + n for n in ('C04_score_of_design', 'C04_greedy_score', 'exhaustive_sub_evaluated')]
+LEAN_TARGETS = SEARCH_TARGETS + ['MM.Props.C04Series']
+THEOREMS = ['MM.Search.' + n for n in ('C04_score_of_design', 'C04_greedy_score', 'exhaustive_sub_evaluated')] + ['MM.Data.C04_series', 'MM.Data.C04_series_length', 'MM.Data.C04_window']
 TRUSTED_BASE = SEARCH_TRUST + ['aliasing of stored diagnostics objects (deepcopy) and float summation order are runtime behaviour: carried by the oracle and the push-log correspondence, not by a theorem (partial)']
 
 
